@@ -55,6 +55,27 @@ func (ex *Exec) callBig(full string, args []Value, e *ast.CallExpr) (Value, bool
 		ex.st.addFact(And(Le(IntI(0), r), Lt(r, m)), "big.Int.Exp range")
 		ex.bigVals[o] = r
 		return args[0], true
+	case "(*math/big.Int).FillBytes":
+		// FillBytes(buf) stores the absolute value as a zero-extended big-endian byte string and returns buf; it
+		// panics when the value does not fit
+		o := ex.bigOf(args[0])
+		v := ex.bigVals[o]
+		buf := args[1].(SliceV)
+		if v == nil || buf.Abs != nil || buf.SymLen != nil {
+			ex.unsupported("big.Int.FillBytes on an unset value or a buffer of unknown length")
+		}
+		ex.oblige("safety", "big.Int.FillBytes#fits@"+ex.where(e), And(Le(IntI(0), v), Lt(v, IntC(pow2(8*buf.Len)))), "the value must fit the buffer (FillBytes panics otherwise)")
+		var parts []*Term
+		for i := 0; i < buf.Len; i++ {
+			b := ex.freshWord("fb", u8t)
+			buf.Obj.Cells[buf.Off+i] = b
+			parts = append(parts, Mul(IntC(pow2(8*(buf.Len-1-i))), b))
+		}
+		if buf.Len > 0 {
+			ex.st.addFact(Eq(Add(parts...), v), "big.Int.FillBytes value")
+			ex.noteWrite(buf.Obj, buf.Off, buf.Len)
+		}
+		return buf, true
 	case "(*math/big.Int).Bytes":
 		o := ex.bigOf(args[0])
 		v := ex.bigVals[o]
